@@ -1181,6 +1181,9 @@ func compileGenericForStmt(context *funcContext, stmt *ast.GenericForStmt) { // 
 	context.StartScopeHere()
 	code.AddASbx(OP_JMP, 0, fllabel, sline(stmt))
 
+	// the loop's own variables live in a block of their own: their scope is the body, while the hidden
+	// variables stay in scope over the TFORLOOP that calls the iterator
+	context.EnterBlock(labelNoJump, stmt)
 	for _, name := range stmt.Names {
 		context.RegisterLocalVar(name)
 	}
@@ -1194,6 +1197,7 @@ func compileGenericForStmt(context *funcContext, stmt *ast.GenericForStmt) { // 
 	code.AddABC(OP_TFORLOOP, rgen, 0, nnames, sline(stmt))
 	code.AddASbx(OP_JMP, 0, bodylabel, sline(stmt))
 
+	context.LeaveBlock()
 	context.SetLabelPc(endlabel, code.LastPC())
 } // }}}
 
